@@ -1,323 +1,1 @@
-/-
-GENERATED by vextract from the Go source (list_impl.go) — do not edit.
-
-A translation of the Filter family, of IntMin / IntMax / Min / Max and of NewListFrom into Lean,
-statement by statement, under the restructuring rules listed at the top of vextract/listgen2.go
-(heap passing, loops as recursive helpers, function literals that assign captured variables as
-functions on the state).  The functions called (NewList, Add, Reduce, ReduceInts) are those of
-ListGen.lean.  Lemmas/ListGen2Eq.lean proves every definition equal to the hand-written model
-(Model/ListOps.lean, Model/Aggregates.lean), so a change of the Go source that alters the
-behaviour breaks the build.
--/
-import Anytype.Model.ListOps
-import Anytype.Model.Aggregates
-import Anytype.Generated.ListGen
-set_option linter.unusedVariables false
-namespace Anytype.Generated.L2
-open Anytype
-
-/-- the loop of `Filter` at list_impl.go:791 (heap loop) -/
-def filterLoopGen (function : Val → Bool) (n1 : Nat) : Heap → List Val → Heap × Out Unit
-  | h, [] =>
-    (h, .ok ())
-  | h, item :: rest =>
-    if function (h.getVal item) then
-      match addGen h n1 [Val.toGo (h.getVal item)] with
-      | (h2, .ok r1) => filterLoopGen function n1 h2 rest
-      | (h2, .panic k) => (h2, .panic k)
-    else filterLoopGen function n1 h rest
-
-/-- `(*list).Filter` (list_impl.go:789) -/
-def filterGen (h : Heap) (a : Nat) (function : Val → Bool) : Heap × Out Ref :=
-  match newListGen h [] with
-  | (h1, .ok ⟨n1, _⟩) =>
-    match filterLoopGen function n1 h1 (h1.items a) with
-    | (h3, .ok _) => (h3, .ok (⟨n1, 0⟩))
-    | (h3, .panic k) => (h3, .panic k)
-  | (h1, .panic k) => (h1, .panic k)
-
-/-- the loop of `FilterObjects` at list_impl.go:801 (heap loop) -/
-def filterObjectsLoopGen (function : Val → Bool) (n1 : Nat) : Heap → List Val → Heap × Out Unit
-  | h, [] =>
-    (h, .ok ())
-  | h, item :: rest =>
-    if (item.kind == .object) && (function item) then
-      match addGen h n1 [Val.toGo item] with
-      | (h2, .ok r1) => filterObjectsLoopGen function n1 h2 rest
-      | (h2, .panic k) => (h2, .panic k)
-    else filterObjectsLoopGen function n1 h rest
-
-/-- `(*list).FilterObjects` (list_impl.go:799) -/
-def filterObjectsGen (h : Heap) (a : Nat) (function : Val → Bool) : Heap × Out Ref :=
-  match newListGen h [] with
-  | (h1, .ok ⟨n1, _⟩) =>
-    match filterObjectsLoopGen function n1 h1 (h1.items a) with
-    | (h3, .ok _) => (h3, .ok (⟨n1, 0⟩))
-    | (h3, .panic k) => (h3, .panic k)
-  | (h1, .panic k) => (h1, .panic k)
-
-/-- the loop of `FilterLists` at list_impl.go:812 (heap loop) -/
-def filterListsLoopGen (function : Val → Bool) (n1 : Nat) : Heap → List Val → Heap × Out Unit
-  | h, [] =>
-    (h, .ok ())
-  | h, item :: rest =>
-    if (item.kind == .list) && (function item) then
-      match addGen h n1 [Val.toGo item] with
-      | (h2, .ok r1) => filterListsLoopGen function n1 h2 rest
-      | (h2, .panic k) => (h2, .panic k)
-    else filterListsLoopGen function n1 h rest
-
-/-- `(*list).FilterLists` (list_impl.go:810) -/
-def filterListsGen (h : Heap) (a : Nat) (function : Val → Bool) : Heap × Out Ref :=
-  match newListGen h [] with
-  | (h1, .ok ⟨n1, _⟩) =>
-    match filterListsLoopGen function n1 h1 (h1.items a) with
-    | (h3, .ok _) => (h3, .ok (⟨n1, 0⟩))
-    | (h3, .panic k) => (h3, .panic k)
-  | (h1, .panic k) => (h1, .panic k)
-
-/-- the loop of `FilterStrings` at list_impl.go:823 (heap loop) -/
-def filterStringsLoopGen (function : Val → Bool) (n1 : Nat) : Heap → List Val → Heap × Out Unit
-  | h, [] =>
-    (h, .ok ())
-  | h, item :: rest =>
-    if ((h.getVal item).kind == .string) && (function (h.getVal item)) then
-      match addGen h n1 [Val.toGo (h.getVal item)] with
-      | (h2, .ok r1) => filterStringsLoopGen function n1 h2 rest
-      | (h2, .panic k) => (h2, .panic k)
-    else filterStringsLoopGen function n1 h rest
-
-/-- `(*list).FilterStrings` (list_impl.go:821) -/
-def filterStringsGen (h : Heap) (a : Nat) (function : Val → Bool) : Heap × Out Ref :=
-  match newListGen h [] with
-  | (h1, .ok ⟨n1, _⟩) =>
-    match filterStringsLoopGen function n1 h1 (h1.items a) with
-    | (h3, .ok _) => (h3, .ok (⟨n1, 0⟩))
-    | (h3, .panic k) => (h3, .panic k)
-  | (h1, .panic k) => (h1, .panic k)
-
-/-- the loop of `FilterInts` at list_impl.go:834 (heap loop) -/
-def filterIntsLoopGen (function : Val → Bool) (n1 : Nat) : Heap → List Val → Heap × Out Unit
-  | h, [] =>
-    (h, .ok ())
-  | h, item :: rest =>
-    if ((h.getVal item).kind == .int) && (function (h.getVal item)) then
-      match addGen h n1 [Val.toGo (h.getVal item)] with
-      | (h2, .ok r1) => filterIntsLoopGen function n1 h2 rest
-      | (h2, .panic k) => (h2, .panic k)
-    else filterIntsLoopGen function n1 h rest
-
-/-- `(*list).FilterInts` (list_impl.go:832) -/
-def filterIntsGen (h : Heap) (a : Nat) (function : Val → Bool) : Heap × Out Ref :=
-  match newListGen h [] with
-  | (h1, .ok ⟨n1, _⟩) =>
-    match filterIntsLoopGen function n1 h1 (h1.items a) with
-    | (h3, .ok _) => (h3, .ok (⟨n1, 0⟩))
-    | (h3, .panic k) => (h3, .panic k)
-  | (h1, .panic k) => (h1, .panic k)
-
-/-- the loop of `FilterFloats` at list_impl.go:845 (heap loop) -/
-def filterFloatsLoopGen (function : Val → Bool) (n1 : Nat) : Heap → List Val → Heap × Out Unit
-  | h, [] =>
-    (h, .ok ())
-  | h, item :: rest =>
-    if ((h.getVal item).kind == .float) && (function (h.getVal item)) then
-      match addGen h n1 [Val.toGo (h.getVal item)] with
-      | (h2, .ok r1) => filterFloatsLoopGen function n1 h2 rest
-      | (h2, .panic k) => (h2, .panic k)
-    else filterFloatsLoopGen function n1 h rest
-
-/-- `(*list).FilterFloats` (list_impl.go:843) -/
-def filterFloatsGen (h : Heap) (a : Nat) (function : Val → Bool) : Heap × Out Ref :=
-  match newListGen h [] with
-  | (h1, .ok ⟨n1, _⟩) =>
-    match filterFloatsLoopGen function n1 h1 (h1.items a) with
-    | (h3, .ok _) => (h3, .ok (⟨n1, 0⟩))
-    | (h3, .panic k) => (h3, .panic k)
-  | (h1, .panic k) => (h1, .panic k)
-
-/-- the function literal handed to `ReduceInts` in `IntMin` at list_impl.go:906, on the state (accumulator, present) -/
-def intMinFnGen (st : Int × Bool) (item : Val) : Int × Bool :=
-  match st with
-  | (min, present) =>
-    if (intOf item) < min then (intOf item, true)
-    else (min, true)
-
-/-- `(*list).IntMin` (list_impl.go:904) -/
-def intMinGen (h : Heap) (a : Nat) : Int :=
-  match reduceIntsGen h a (((2:Int)^63 - 1, false)) intMinFnGen with
-  | (min, present1) =>
-    if present1 then min
-    else 0
-
-/-- the function literal handed to `ReduceInts` in `IntMax` at list_impl.go:949, on the state (accumulator, present) -/
-def intMaxFnGen (st : Int × Bool) (item : Val) : Int × Bool :=
-  match st with
-  | (max, present) =>
-    if (intOf item) > max then (intOf item, true)
-    else (max, true)
-
-/-- `(*list).IntMax` (list_impl.go:947) -/
-def intMaxGen (h : Heap) (a : Nat) : Int :=
-  match reduceIntsGen h a ((-(2:Int)^63, false)) intMaxFnGen with
-  | (max, present1) =>
-    if present1 then max
-    else 0
-
-/-- the function literal handed to `Reduce` in `Min` at list_impl.go:923, on the state (accumulator, present); `.panic` is absorbing -/
-def minFnGen (st : Out (Val × Bool)) (item : Val) : Out (Val × Bool) :=
-  match st with
-  | .panic k => .panic k
-  | .ok (min, present) =>
-    if item.kind == .int then
-      if !(min.kind == .float) then .panic .runtime
-      else if FloatArith.lt (FloatArith.ofInt (intOf item)) (floatOf min) then .ok (.float (FloatArith.ofInt (intOf item)), true)
-      else .ok (min, true)
-    else if !(item.kind == .float) then .panic .runtime
-    else if !(min.kind == .float) then .panic .runtime
-    else if FloatArith.lt (floatOf item) (floatOf min) then .ok (item, true)
-    else .ok (min, true)
-
-/-- `(*list).Min` (list_impl.go:921) -/
-def minGen (h : Heap) (a : Nat) : Out F64 :=
-  match reduceGen h a (.ok (.float FloatArith.maxFinite, false)) minFnGen with
-  | .panic k => .panic k
-  | .ok (r1, present1) =>
-    if !(r1.kind == .float) then .panic .runtime
-    else if present1 then .ok (floatOf r1)
-    else .ok FloatArith.zero
-
-/-- the function literal handed to `Reduce` in `Max` at list_impl.go:966, on the state (accumulator, present); `.panic` is absorbing -/
-def maxFnGen (st : Out (Val × Bool)) (item : Val) : Out (Val × Bool) :=
-  match st with
-  | .panic k => .panic k
-  | .ok (max, present) =>
-    if item.kind == .int then
-      if !(max.kind == .float) then .panic .runtime
-      else if FloatArith.lt (floatOf max) (FloatArith.ofInt (intOf item)) then .ok (.float (FloatArith.ofInt (intOf item)), true)
-      else .ok (max, true)
-    else if !(item.kind == .float) then .panic .runtime
-    else if !(max.kind == .float) then .panic .runtime
-    else if FloatArith.lt (floatOf max) (floatOf item) then .ok (item, true)
-    else .ok (max, true)
-
-/-- `(*list).Max` (list_impl.go:964) -/
-def maxGen (h : Heap) (a : Nat) : Out F64 :=
-  match reduceGen h a (.ok (.float FloatArith.negMaxFinite, false)) maxFnGen with
-  | .panic k => .panic k
-  | .ok (r1, present1) =>
-    if !(r1.kind == .float) then .panic .runtime
-    else if present1 then .ok (floatOf r1)
-    else .ok FloatArith.zero
-
-/-- the loop of `NewListFrom` at list_impl.go:86 (heap loop) -/
-def newListFromLoopGen (n1 : Nat) : Heap → List GoVal → Heap × Out Unit
-  | h, [] =>
-    (h, .ok ())
-  | h, item :: rest =>
-    match addGen h n1 [item] with
-    | (h2, .ok r1) => newListFromLoopGen n1 h2 rest
-    | (h2, .panic k) => (h2, .panic k)
-
-/-- the loop of `NewListFrom` at list_impl.go:91 (heap loop) -/
-def newListFromLoop2Gen (n2 : Nat) : Heap → List GoVal → Heap × Out Unit
-  | h, [] =>
-    (h, .ok ())
-  | h, item :: rest =>
-    match addGen h n2 [item] with
-    | (h5, .ok r2) => newListFromLoop2Gen n2 h5 rest
-    | (h5, .panic k) => (h5, .panic k)
-
-/-- the loop of `NewListFrom` at list_impl.go:96 (heap loop) -/
-def newListFromLoop3Gen (n3 : Nat) : Heap → List GoVal → Heap × Out Unit
-  | h, [] =>
-    (h, .ok ())
-  | h, item :: rest =>
-    match addGen h n3 [item] with
-    | (h8, .ok r3) => newListFromLoop3Gen n3 h8 rest
-    | (h8, .panic k) => (h8, .panic k)
-
-/-- the loop of `NewListFrom` at list_impl.go:101 (heap loop) -/
-def newListFromLoop4Gen (n4 : Nat) : Heap → List GoVal → Heap × Out Unit
-  | h, [] =>
-    (h, .ok ())
-  | h, item :: rest =>
-    match addGen h n4 [item] with
-    | (h11, .ok r4) => newListFromLoop4Gen n4 h11 rest
-    | (h11, .panic k) => (h11, .panic k)
-
-/-- the loop of `NewListFrom` at list_impl.go:106 (heap loop) -/
-def newListFromLoop5Gen (n5 : Nat) : Heap → List GoVal → Heap × Out Unit
-  | h, [] =>
-    (h, .ok ())
-  | h, item :: rest =>
-    match addGen h n5 [item] with
-    | (h14, .ok r5) => newListFromLoop5Gen n5 h14 rest
-    | (h14, .panic k) => (h14, .panic k)
-
-/-- the loop of `NewListFrom` at list_impl.go:111 (heap loop) -/
-def newListFromLoop6Gen (n6 : Nat) : Heap → List GoVal → Heap × Out Unit
-  | h, [] =>
-    (h, .ok ())
-  | h, item :: rest =>
-    match addGen h n6 [item] with
-    | (h17, .ok r6) => newListFromLoop6Gen n6 h17 rest
-    | (h17, .panic k) => (h17, .panic k)
-
-/-- the loop of `NewListFrom` at list_impl.go:116 (heap loop) -/
-def newListFromLoop7Gen (n7 : Nat) : Heap → List GoVal → Heap × Out Unit
-  | h, [] =>
-    (h, .ok ())
-  | h, item :: rest =>
-    match addGen h n7 [item] with
-    | (h20, .ok r7) => newListFromLoop7Gen n7 h20 rest
-    | (h20, .panic k) => (h20, .panic k)
-
-/-- `NewListFrom` (list_impl.go:77) -/
-def newListFromGen (h : Heap) (slice : GoVal) : Heap × Out Ref :=
-  match slice with
-  | .slice .any s_ =>
-    let n1 := h.length
-    let h1 := h ++ [.list [] 0]
-    match newListFromLoopGen n1 h1 s_ with
-    | (h3, .ok _) => (h3, .ok (⟨n1, 0⟩))
-    | (h3, .panic k) => (h3, .panic k)
-  | .slice .object s_ =>
-    let n2 := h.length
-    let h4 := h ++ [.list [] 0]
-    match newListFromLoop2Gen n2 h4 s_ with
-    | (h6, .ok _) => (h6, .ok (⟨n2, 0⟩))
-    | (h6, .panic k) => (h6, .panic k)
-  | .slice .list s_ =>
-    let n3 := h.length
-    let h7 := h ++ [.list [] 0]
-    match newListFromLoop3Gen n3 h7 s_ with
-    | (h9, .ok _) => (h9, .ok (⟨n3, 0⟩))
-    | (h9, .panic k) => (h9, .panic k)
-  | .slice .string s_ =>
-    let n4 := h.length
-    let h10 := h ++ [.list [] 0]
-    match newListFromLoop4Gen n4 h10 s_ with
-    | (h12, .ok _) => (h12, .ok (⟨n4, 0⟩))
-    | (h12, .panic k) => (h12, .panic k)
-  | .slice .bool s_ =>
-    let n5 := h.length
-    let h13 := h ++ [.list [] 0]
-    match newListFromLoop5Gen n5 h13 s_ with
-    | (h15, .ok _) => (h15, .ok (⟨n5, 0⟩))
-    | (h15, .panic k) => (h15, .panic k)
-  | .slice .int s_ =>
-    let n6 := h.length
-    let h16 := h ++ [.list [] 0]
-    match newListFromLoop6Gen n6 h16 s_ with
-    | (h18, .ok _) => (h18, .ok (⟨n6, 0⟩))
-    | (h18, .panic k) => (h18, .panic k)
-  | .slice .float64 s_ =>
-    let n7 := h.length
-    let h19 := h ++ [.list [] 0]
-    match newListFromLoop7Gen n7 h19 s_ with
-    | (h21, .ok _) => (h21, .ok (⟨n7, 0⟩))
-    | (h21, .panic k) => (h21, .panic k)
-  | _ => (h, .panic .unsupported)
-
-end Anytype.Generated.L2
+#check (vextract_translation_failed : "list_impl.go:469:12: unrecognised expression: *ego")
